@@ -193,8 +193,10 @@ def replay_path(run, g, path, roots, maxid):
     init, steps = g.path_steps(path)
     trail = []
     seen_uploads = 0
+    last_store = None
     for act, to in steps:
         trail.append(dict(act))
+        last_store = {str(k): v for k, v in to["store"].items()} if isinstance(to["store"], dict) else {str(i + 1): v for i, v in enumerate(to["store"])}
         try:
             w.do(act)
         except core.MachineryError as e:
@@ -237,6 +239,8 @@ def replay_path(run, g, path, roots, maxid):
     # a consumed key cannot be used again
     consumed = [t["id"] for t in trail if t["name"] == "Consume"]
     for kid in consumed[:1]:
+        if last_store is not None and last_store.get(str(kid), "none") != "none":
+            continue        # the id was given to another key since (as-read model / the recorded finding): that key is a different one
         try:
             w.consume(kid)
             run.violation("consumed-key-reusable", "prekey %d was consumed by a first message and accepted a second one (%s)" % (kid, [t["name"] for t in trail]), {"trail": trail})
@@ -246,6 +250,33 @@ def replay_path(run, g, path, roots, maxid):
         except Exception:
             pass
     return True
+
+
+def pinned_release_store(r):
+    """A key store written by the pinned release marks a prekey that was never uploaded with NO value in its sent flag (the column has no
+    default).  Such a store keeps working: after reopening, every key that was not uploaded is still offered."""
+    import sqlite3
+    from yowsup.common.tools import StorageTools
+    roots = e2ekit.Roots()
+    try:
+        r.case(("pinned-release-store",))
+        r.cov["traces_validated_against_impl"] += 1
+        phone = "4915770007701"
+        m = e2ekit.make_profile(phone).axolotl_manager
+        made = sorted(k.getId() for k in m.level_prekeys(force=True))
+        m._store.identityKeyStore.dbConn.close()
+        db = StorageTools.constructPath(phone, "axolotl.db")
+        c = sqlite3.connect(db)
+        c.execute("UPDATE prekeys SET sent_to_server = NULL WHERE sent_to_server IS NULL OR sent_to_server = 0")     # the pinned release's "not uploaded"
+        c.commit()
+        c.close()
+        m2 = e2ekit.make_profile(phone).axolotl_manager
+        offered = sorted(k.getId() for k in m2.load_unsent_prekeys())
+        m2._store.identityKeyStore.dbConn.close()
+        if offered != made:
+            r.violation("store:pinned-release-flags", "keys %s were generated and never uploaded (flag empty, as the pinned release writes it); after reopening the keys offered for upload are %s" % (made, offered), {})
+    finally:
+        roots.close()
 
 
 def run():
@@ -284,6 +315,23 @@ def run():
             if pi < 2:
                 r.sample({"history": [g.edges[i][1] for i in p]})
         r.notes["spec_transitions_replayed"] = len(covered)
+        # deeper histories without losses / restarts / upload errors: a key id is consumed, given again to a key of a later batch and
+        # consumed again (row numbering of the table and key ids drift apart on the way).  This graph is the AS-READ model (FreshIds =
+        # FALSE: ids continue after the highest stored id - the recorded finding), so that the replay can follow the code past the
+        # point where the claimed model and the code part ways and compare everything else
+        egr = core.tlc("PreKeys", "Edges_PreKeys_reuse.cfg", r.scratch, workers=1, timeout=3000)
+        gr = core.Graph(egr.printed())
+        if len(gr.edges) < 500:
+            raise core.MachineryError("PreKeys id-reuse edge dump too small (%d)" % len(gr.edges))
+        pr = gr.transition_cover(rng, tail=1)
+        if not thorough and len(pr) > 500:
+            pr = rng.sample(pr, 500)
+        pr += gr.random_walks(300 if thorough else 60, 10, rng)
+        for p in pr:
+            replay_path(r, gr, p, roots, 6)
+            r.case(("reuse",) + tuple(p))
+            r.cov["traces_validated_against_impl"] += 1
+        r.notes["spec_transitions_id_reuse_graph"] = len(gr.edges)
         # a second parameter point: batches of 3, refill below 2 - here a login can generate a new batch WHILE keys of an earlier,
         # unconfirmed upload are still waiting (impossible with batch 2 / threshold 1)
         res3 = core.must_clean(core.tlc("PreKeys", "MC_PreKeys_b3.cfg", r.scratch, workers=16, timeout=3000), "MC_PreKeys_b3")
@@ -304,6 +352,7 @@ def run():
     finally:
         e2ekit.small_batches(BATCH, THRESHOLD)
         roots.close()
+    pinned_release_store(r)
     r.assumptions += core.ENV_ASSUMPTIONS[:1] + ["batch size 2 / threshold 1 set through the manager's class attributes", "the server is the harness (stanzas injected at the control layer's lower side)",
                       "consumption is a real first message from a peer session built (with python-axolotl) from the uploaded bundle"]
     return r.finish()
